@@ -302,6 +302,7 @@ pub struct C04 {
     immobile: u64,
     midturn_goal: u64,
     midturn_norabbit: u64,
+    midturn_stuck: u64,
 }
 impl Monitor for C04 {
     fn twin_kinds(&self) -> u8 {
@@ -379,6 +380,13 @@ impl Monitor for C04 {
             if o.term.is_some() && !o.rep_codes.is_empty() {
                 s.violate_game("C04", "result_mid_turn_with_actions_offered", o.rec, format!("engine={} offered=[{}] {}", term_text(o.term), texts(o.rep_codes), state_text(sh)));
             }
+            // ... and the one result a mid-turn state can have: nothing at all is offered, the mover has lost
+            if o.rep_codes.is_empty() {
+                self.midturn_stuck += 1;
+                if o.term != Some(!sh.gold) {
+                    s.violate_game("C04", "mid_turn_state_with_nothing_offered_is_not_a_loss_for_the_mover", o.rec, format!("engine={} offered=[] {}", term_text(o.term), state_text(sh)));
+                }
+            }
         }
     }
     fn finish(&mut self, s: &mut Sink) {
@@ -401,6 +409,7 @@ impl Monitor for C04 {
         s.add("immobilised_mover_positions", self.immobile);
         s.add("mid_turn_states_with_rabbit_on_goal", self.midturn_goal);
         s.add("mid_turn_states_with_rabbitless_side", self.midturn_norabbit);
+        s.add("mid_turn_states_with_nothing_offered", self.midturn_stuck);
     }
 }
 
